@@ -1,2 +1,258 @@
+/-
+  Lemmas about the qmail-send report reader model (`Nq.SendReport`): which parts of the state each
+  routine can touch, which events it can emit, the REPORTMAX bound.
+-/
 import Nq.SendReport
 import Nq.Spec.TrustBoundary
+
+namespace Nq.Lemmas.SendL
+open Nq Nq.SendReport Nq.Spec.TB
+
+/-- events that touch neither a recipient file nor a bounce file -/
+def quiet : Ev → Bool
+  | .mark _ _ _ => false
+  | .openWriteFail _ => false
+  | .stray => false
+  | .openAppend _ => false
+  | .bounce _ => false
+  | _ => true
+
+/-- the line buffer and the slot table are untouched -/
+def Frame (st st' : St) : Prop := st'.drev = st.drev ∧ st'.dlen = st.dlen ∧ st'.slots = st.slots
+
+theorem Frame.refl (st : St) : Frame st st := ⟨rfl, rfl, rfl⟩
+theorem Frame.trans {a b c : St} (h1 : Frame a b) (h2 : Frame b c) : Frame a c :=
+  ⟨h2.1.trans h1.1, h2.2.1.trans h1.2.1, h2.2.2.trans h1.2.2⟩
+
+theorem nextPlan_frame (st : St) : Frame st (nextPlan st).2 ∧ (nextPlan st).2.jobs = st.jobs := by
+  simp [nextPlan, Frame]
+
+theorem markdone_frame (c : Nat) (st : St) (id pos : Nat) :
+    Frame st (markdone c st id pos).1 ∧ (markdone c st id pos).1.jobs = st.jobs := by
+  unfold markdone
+  simp only [nextPlan]
+  by_cases h : st.plan.headD 0 = 1
+  · simp only [h, if_true]; simp [Frame]
+  · simp only [h, if_false]; simp [Frame]
+
+/-- `markdone` either writes the single byte 'D' at `pos` of the channel's recipient file of `id`, or
+fails to open it and only logs -/
+theorem markdone_events (c : Nat) (st : St) (id pos : Nat) :
+    (markdone c st id pos).2 = [.mark (Clean.fmtqfn (chanaddr c) id true) pos [68]] ∨
+    ∃ t, (markdone c st id pos).2 = [.openWriteFail (Clean.fmtqfn (chanaddr c) id true), .log t] := by
+  unfold markdone
+  simp only [nextPlan]
+  by_cases h : st.plan.headD 0 = 1
+  · right; simp only [h, if_true]; exact ⟨_, rfl⟩
+  · left; simp only [h, if_false]
+
+theorem statOthers_frame (id : Nat) (cs : List Nat) (st : St) :
+    Frame st (statOthers id cs st).1 ∧ (statOthers id cs st).1.jobs = st.jobs ∧
+    ∀ e ∈ (statOthers id cs st).2.1, quiet e = true := by
+  induction cs generalizing st with
+  | nil => simp [statOthers, Frame]
+  | cons c cs ih =>
+    unfold statOthers
+    simp only [nextPlan]
+    by_cases h1 : st.plan.headD 0 = 1
+    · simp only [h1, if_true]; simp [Frame, quiet]
+    · by_cases h2 : st.plan.headD 0 = 2
+      · simp only [h1, h2, if_true, if_false]; simp [Frame, quiet]
+      · obtain ⟨g1, g2, g3⟩ := ih { st with plan := st.plan.tail }
+        simp only [h1, h2, if_false]
+        refine ⟨⟨g1.1, g1.2.1, g1.2.2⟩, g2, ?_⟩
+        intro e he
+        simp only [List.mem_cons] at he
+        rcases he with he | he
+        · subst he; rfl
+        · exact g3 e he
+
+theorem jobClose_aux (st st2 : St) (id ch now : Nat) (path : Bytes) (hf : Frame st st2) :
+    Frame st (if (statOthers id (otherChannels ch) st2).2.2 = true
+        then ((statOthers id (otherChannels ch) st2).1, Ev.unlink path :: (statOthers id (otherChannels ch) st2).2.1)
+        else ((statOthers id (otherChannels ch) st2).1,
+              Ev.unlink path :: (statOthers id (otherChannels ch) st2).2.1 ++ [Ev.pq 2 id now])).1 ∧
+    ∀ e ∈ (if (statOthers id (otherChannels ch) st2).2.2 = true
+        then ((statOthers id (otherChannels ch) st2).1, Ev.unlink path :: (statOthers id (otherChannels ch) st2).2.1)
+        else ((statOthers id (otherChannels ch) st2).1,
+              Ev.unlink path :: (statOthers id (otherChannels ch) st2).2.1 ++ [Ev.pq 2 id now])).2, quiet e = true := by
+  have hso := statOthers_frame id (otherChannels ch) st2
+  by_cases h4 : (statOthers id (otherChannels ch) st2).2.2 = true
+  · rw [if_pos h4]
+    refine ⟨hf.trans hso.1, ?_⟩
+    intro e he
+    simp only [List.mem_cons] at he
+    rcases he with he | he
+    · subst he; rfl
+    · exact hso.2.2 e he
+  · rw [if_neg h4]
+    refine ⟨hf.trans hso.1, ?_⟩
+    intro e he
+    simp only [List.mem_cons, List.mem_append, List.mem_singleton] at he
+    rcases he with (he | he) | he
+    · subst he; rfl
+    · exact hso.2.2 e he
+    · rcases he with he | he
+      · subst he; rfl
+      · simp at he
+
+theorem jobClose_frame (env : Env) (st : St) (j : Nat) :
+    Frame st (jobClose env st j).1 ∧ ∀ e ∈ (jobClose env st j).2, quiet e = true := by
+  unfold jobClose
+  cases hj : st.jobs[j]? with
+  | none => exact ⟨Frame.refl st, by simp⟩
+  | some jb =>
+    simp only [setJob, nextPlan]
+    by_cases h1 : 0 < jb.refs - 1
+    · simp only [h1, if_true]; exact ⟨⟨rfl, rfl, rfl⟩, by simp⟩
+    · simp only [h1, if_false]
+      by_cases h2 : jb.hiteof = true ∧ jb.numtodo = 0
+      · rw [if_pos h2]
+        by_cases h3 : st.plan.headD 0 = 1
+        · simp only [h3, if_true]; exact ⟨⟨rfl, rfl, rfl⟩, by simp [quiet]⟩
+        · simp only [h3, if_false]
+          exact jobClose_aux st _ jb.id jb.channel env.now _ ⟨rfl, rfl, rfl⟩
+      · rw [if_neg h2]; exact ⟨⟨rfl, rfl, rfl⟩, by simp [quiet]⟩
+
+theorem marksOf_quiet (evs : List Ev) (h : ∀ e ∈ evs, quiet e = true) :
+    marksOf evs = [] ∧ bouncesOf evs = [] ∧ writesOK evs = true := by
+  induction evs with
+  | nil => simp [marksOf, bouncesOf, writesOK]
+  | cons e r ih =>
+    have he := h e (by simp)
+    have hr := ih (fun x hx => h x (by simp [hx]))
+    cases e <;> simp_all [marksOf, bouncesOf, writesOK, quiet]
+
+theorem marksOf_append (a b : List Ev) : marksOf (a ++ b) = marksOf a ++ marksOf b := by
+  induction a with
+  | nil => rfl
+  | cons e a ih => cases e <;> simp [marksOf, ih]
+
+theorem bouncesOf_append (a b : List Ev) : bouncesOf (a ++ b) = bouncesOf a ++ bouncesOf b := by
+  induction a with
+  | nil => rfl
+  | cons e a ih => cases e <;> simp [bouncesOf, ih]
+
+/-! ### one report line -/
+
+def WARN : Bytes := str "warning: internal error: delivery report out of range\n"
+
+/-- a report naming a slot that is out of range or not in use changes nothing -/
+theorem processLine_unused (env : Env) (st : St) (dl : Bytes)
+    (h : st.slots.getD (dl.headD 0).toNat none = none) :
+    processLine env st dl = (st, [.log WARN]) := by
+  unfold processLine
+  simp only [h]
+  rfl
+
+theorem writesOK_append (a b : List Ev) : writesOK (a ++ b) = (writesOK a && writesOK b) := by
+  induction a with
+  | nil => simp [writesOK]
+  | cons e a ih => cases e <;> simp [writesOK, ih, Bool.and_assoc]
+
+theorem finishReport_spec (env : Env) (st : St) (r : St × List Ev) (d j : Nat) (hf : Frame st r.1) :
+    (finishReport env r d j).1.drev = st.drev ∧ (finishReport env r d j).1.dlen = st.dlen ∧
+    (finishReport env r d j).1.slots = st.slots.set d none ∧
+    marksOf (finishReport env r d j).2 = marksOf r.2 ∧ bouncesOf (finishReport env r d j).2 = bouncesOf r.2 ∧
+    writesOK (finishReport env r d j).2 = writesOK r.2 := by
+  obtain ⟨hc, hq⟩ := jobClose_frame env r.1 j
+  have hq' := marksOf_quiet _ hq
+  unfold finishReport
+  simp only [marksOf_append, bouncesOf_append, writesOK_append, hq'.1, hq'.2.1, hq'.2.2]
+  refine ⟨hc.1.trans hf.1, hc.2.1.trans hf.2.1, by rw [hc.2.2, hf.2.2], ?_, ?_, ?_⟩ <;>
+    simp [marksOf, bouncesOf, writesOK]
+
+theorem reportCore_spec (env : Env) (st : St) (sl : Slot) (jb : Job) (letter : Byte) (text : Bytes) :
+    Frame st (reportCore env st sl jb letter text).1 ∧
+    (marksOf (reportCore env st sl jb letter text).2 = [] ∨
+     marksOf (reportCore env st sl jb letter text).2 = [(Clean.fmtqfn (chanaddr env.chan) jb.id true, sl.mpos)]) ∧
+    (bouncesOf (reportCore env st sl jb letter text).2 = [] ∨
+     bouncesOf (reportCore env st sl jb letter text).2 = [Clean.fmtqfn (str "bounce/") jb.id false]) ∧
+    writesOK (reportCore env st sl jb letter text).2 = true ∧
+    ((letter ≠ 75 ∧ letter ≠ 68) → marksOf (reportCore env st sl jb letter text).2 = [] ∧
+       bouncesOf (reportCore env st sl jb letter text).2 = []) := by
+  have hm := markdone_frame env.chan st jb.id sl.mpos
+  have hfr : Frame st (setJob (markdone env.chan st jb.id sl.mpos).1 sl.j { jb with numtodo := jb.numtodo - 1 }) :=
+    ⟨hm.1.1, hm.1.2.1, hm.1.2.2⟩
+  unfold reportCore
+  by_cases hK : letter = 75
+  · simp only [hK, if_true]
+    refine ⟨hfr, ?_, ?_, ?_, fun h => absurd rfl h.1⟩
+    · rcases markdone_events env.chan st jb.id sl.mpos with h | ⟨t, h⟩ <;> rw [h] <;> simp [marksOf]
+    · rcases markdone_events env.chan st jb.id sl.mpos with h | ⟨t, h⟩ <;> rw [h] <;> simp [bouncesOf]
+    · rcases markdone_events env.chan st jb.id sl.mpos with h | ⟨t, h⟩ <;> rw [h] <;> simp [writesOK]
+  · by_cases hZ : letter = 90
+    · simp only [hK, hZ, if_true, if_false]
+      exact ⟨Frame.refl st, by simp [marksOf], by simp [bouncesOf], by simp [writesOK], fun _ => by simp [marksOf, bouncesOf]⟩
+    · by_cases hD : letter = 68
+      · have e1 : (90 : Byte) ≠ 75 := by decide
+        simp only [hK, hZ, hD, if_true, if_false]
+        have e68a : ¬ ((68 : Byte) = 75) := by decide
+        have e68b : ¬ ((68 : Byte) = 90) := by decide
+        simp only [e68a, e68b, if_false]
+        refine ⟨hfr, ?_, ?_, ?_, fun h => absurd rfl h.2⟩
+        · rcases markdone_events env.chan st jb.id sl.mpos with h | ⟨t, h⟩ <;> rw [h] <;> simp [marksOf, addbounce]
+        · rcases markdone_events env.chan st jb.id sl.mpos with h | ⟨t, h⟩ <;> rw [h] <;> simp [bouncesOf, addbounce]
+        · rcases markdone_events env.chan st jb.id sl.mpos with h | ⟨t, h⟩ <;> rw [h] <;> simp [writesOK, addbounce]
+      · simp only [hK, hZ, hD, if_false]
+        exact ⟨Frame.refl st, by simp [marksOf], by simp [bouncesOf], by simp [writesOK], fun _ => by simp [marksOf, bouncesOf]⟩
+
+/-- what a report for a slot in use can do: the line buffer is untouched, the slot is freed, no
+other slot changes, and the events are: at most one `mark` — of this slot's recipient record — at
+most one bounce — for this slot's message — and otherwise only quiet events -/
+theorem processLine_used (env : Env) (st : St) (dl : Bytes) (sl : Slot)
+    (h : st.slots.getD (dl.headD 0).toNat none = some sl) :
+    (processLine env st dl).1.drev = st.drev ∧ (processLine env st dl).1.dlen = st.dlen ∧
+    (processLine env st dl).1.slots = st.slots.set (dl.headD 0).toNat none ∧
+    (marksOf (processLine env st dl).2 = [] ∨
+     marksOf (processLine env st dl).2 =
+       [(Clean.fmtqfn (chanaddr env.chan) (st.jobs.getD sl.j ⟨0, 0, 0, false, false, 0, 0⟩).id true, sl.mpos)]) ∧
+    (bouncesOf (processLine env st dl).2 = [] ∨
+     bouncesOf (processLine env st dl).2 =
+       [Clean.fmtqfn (str "bounce/") (st.jobs.getD sl.j ⟨0, 0, 0, false, false, 0, 0⟩).id false]) ∧
+    writesOK (processLine env st dl).2 = true ∧
+    ((dl.getD 1 0 ≠ 75 ∧ dl.getD 1 0 ≠ 90 ∧ dl.getD 1 0 ≠ 68) →
+      marksOf (processLine env st dl).2 = [] ∧ bouncesOf (processLine env st dl).2 = []) := by
+  unfold processLine
+  simp only [h]
+  generalize hjb : st.jobs.getD sl.j ⟨0, 0, 0, false, false, 0, 0⟩ = jb
+  generalize hletter : (if dl.getD 1 0 = 90 ∧ jb.dying = true then (68 : Byte) else dl.getD 1 0) = letter
+  generalize htext : (if dl.getD 1 0 = 90 ∧ jb.dying = true then dl.dropLast.drop 2 ++ DYINGMSG else cstr2 (dl.drop 2)) = text
+  obtain ⟨c1, c2, c3, c4, c5⟩ := reportCore_spec env st sl jb letter text
+  obtain ⟨f1, f2, f3, f4, f5, f6⟩ := finishReport_spec env st (reportCore env st sl jb letter text) (dl.headD 0).toNat sl.j c1
+  refine ⟨f1, f2, f3, by rw [f4]; exact c2, by rw [f5]; exact c3, by rw [f6]; exact c4, ?_⟩
+  intro hl
+  rw [f4, f5]
+  apply c5
+  rw [← hletter]
+  have : ¬ (dl.getD 1 0 = 90 ∧ jb.dying = true) := fun hh => hl.2.1 hh.1
+  simp only [this, if_false]
+  exact ⟨hl.1, hl.2.2⟩
+
+/-! ### the REPORTMAX bound -/
+
+theorem processLine_dlen (env : Env) (st : St) (dl : Bytes) : (processLine env st dl).1.dlen = st.dlen := by
+  cases h : st.slots.getD (dl.headD 0).toNat none with
+  | none => rw [processLine_unused env st dl h]
+  | some sl => exact (processLine_used env st dl sl h).2.1
+
+theorem step_dlen (env : Env) (st : St) (ch : Byte) (h : st.dlen ≤ Nq.Gen.REPORTMAX) :
+    (step env st ch).1.dlen ≤ Nq.Gen.REPORTMAX := by
+  unfold step
+  by_cases h1 : st.dlen < Nq.Gen.REPORTMAX
+  · simp only [h1, if_true]
+    by_cases h2 : ch = 0 ∧ st.dlen + 1 > 1
+    · rw [if_pos h2, processLine_dlen]; exact Nat.zero_le _
+    · rw [if_neg h2]; exact h1
+  · simp only [h1, if_false]
+    by_cases h2 : ch = 0 ∧ st.dlen > 1
+    · rw [if_pos h2, processLine_dlen]; exact Nat.zero_le _
+    · rw [if_neg h2]; exact h
+
+theorem feed_dlen (env : Env) (st : St) (s : Bytes) (h : st.dlen ≤ Nq.Gen.REPORTMAX) :
+    (feed env st s).1.dlen ≤ Nq.Gen.REPORTMAX := by
+  induction s generalizing st with
+  | nil => exact h
+  | cons c r ih => unfold feed; exact ih _ (step_dlen env st c h)
+
+end Nq.Lemmas.SendL
